@@ -137,6 +137,8 @@ def check(case):
     history = case.get("history") if case.get("n_train") != "same_buffer" else None
     if case.get("as_float32"):
         Xtrain = Xpred = X.astype(np.float32)  # the detector gets single precision, the reference the same numbers as float64
+    if K.rejects_other_width(lambda: K.build(K.detector_spec("CircularBinarySegmentation", params)), Xtrain, Xpred):
+        return {"nontrivial": False, "classes": ["other_number_of_columns_rejected"]}
     try:
         return _check(case, params, X, n, p, msl, mil, Xtrain, Xpred, history)
     except RecursionError:
